@@ -51,11 +51,12 @@ def do_ctl(proc, c):
 
 def observed_ctl(proc, c, trace, actions):
     import coqio
+    pos = len(trace)
     try:
         r = canon_ctl_ret(do_ctl(proc, c), actions)
     except Exception as e:
         r = ['raised', coqio.canon_exception(e)]
-    trace.append(['ctl', c, r])
+    trace.append(['ctl', c, r, pos])      # pos: length of the trace when the call was made
     return r
 
 
@@ -174,6 +175,7 @@ class ScriptedMixin:
         if k == 'kill':
             return process_states.Kill(None if r[1] is None else plumpy.process_comms.MessageBuilder.kill(r[1][0]))
         if k == 'raise':
+            CURRENT.setdefault('side', []).append(['step_raised', name])   # side channel for the oracles, not part of the trace
             raise UserError(r[1])
         raise ValueError(r)
 
